@@ -178,6 +178,16 @@ class Ref:
             c = self.sl[i]["c"]
             self.sl[i]["c"] = c[:n] + [v] * (n - len(c))
             return True
+        if op == "rr":
+            i, n, j, idx = I(1), I(2), I(3), I(4)
+            if not self.used(i) or self.sl[i]["k"] != "O" or not self.used(j): return False
+            e = self.elems(self.sl[j])
+            if e == WRAP: raise Unjudged()
+            if e is None or idx >= len(e): return False
+            v = e[idx]                           # the value the reference designates BEFORE the call
+            c = self.sl[i]["c"]
+            self.sl[i]["c"] = c[:n] + [v] * (n - len(c))
+            return True
         if op in ("cc", "mc"):
             i, j = I(1), I(2)
             if not self.free(i) or not self.used(j): return False
@@ -311,7 +321,18 @@ def gen_H(r, maxlen):
             cur = len(ref.sl[jj]["c"]) if ref.used(jj) and ref.sl[jj]["k"] == "O" else 0
             tok = "resize:%d:%d:%d" % (jj, r.choice([0, 1, max(0, cur - 1), cur, cur + 1, 2 * cur, 2 * cur + 1, r.randint(0, 20), 40]),
                                        r.randint(0, 200))
-        elif c < 0.75: tok = "%s:%d:%d" % (r.choice(["cc", "cc", "mc"]), i, j)
+        elif c < 0.705: tok = "%s:%d:%d" % (r.choice(["cc", "cc", "mc"]), i, j)
+        elif c < 0.75:
+            # resize with the fill value passed by reference to an element of a wrapper (mostly of the array itself)
+            ow = [x for x in used if ref.sl[x]["k"] == "O"]
+            ii = r.choice(ow) if ow and not wild else j
+            jj = ii if r.random() < 0.7 else j
+            cur = len(ref.sl[ii]["c"]) if ref.used(ii) and ref.sl[ii]["k"] == "O" else 0
+            ej = ref.elems(ref.sl[jj]) if ref.used(jj) else None
+            lj = ref.sl[jj]["n"] if ej == WRAP else len(ej or [])
+            idx = r.randint(0, max(0, lj - 1 + (1 if wild else 0)))
+            tok = "rr:%d:%d:%d:%d" % (ii, r.choice([0, 1, idx, idx + 1, max(0, cur - 1), cur, cur + 1, 2 * cur, 2 * cur + 1,
+                                                    r.randint(0, 20), 40]), jj, idx)
         elif c < 0.80:
             # a (pointer, size) argument taken from a wrapper's own storage: self-aliasing reset, view / copy of a sub-range
             def wlen(x):
@@ -350,10 +371,10 @@ def gen_H(r, maxlen):
 
 
 EXH_PREFIX = ["sset:0:v:1,2,3", "sset:1:a:7,8"]
-EXH_ALPHA = ["rw:0:0:1:2", "rw:0:0:0:3", "rw:0:1:1:1", "pw:1:V:0:0:3", "pw:1:O:0:1:2", "src:0:O:0", "src:0:F:0", "src:0:V:0", "ptr:1:O:0:1:2", "def:1:O", "cc:1:0", "mc:1:0", "ca:0:1", "ma:1:0", "ma:0:1",
+EXH_ALPHA = ["rr:0:9:0:1", "rr:0:2:0:2", "rr:0:4:0:0", "rw:0:0:1:2", "rw:0:0:0:3", "rw:0:1:1:1", "pw:1:V:0:0:3", "pw:1:O:0:1:2", "src:0:O:0", "src:0:F:0", "src:0:V:0", "ptr:1:O:0:1:2", "def:1:O", "cc:1:0", "mc:1:0", "ca:0:1", "ma:1:0", "ma:0:1",
              "del:0", "del:1", "fview:1:0:1:2", "asrc:0:1", "resize:0:9:4", "resize:0:1:4", "reset:0", "rptr:0:1:0:2",
              "sset:0:v:5,6", "skill:0", "swrite:0:1:8", "w:1:0:9", "w:0:1:9"]
-EXH_SMALL = ["rw:0:0:1:2", "pw:1:V:0:0:3", "rw:0:1:0:2", "src:0:O:0", "src:0:F:0", "src:0:V:0", "cc:1:0", "mc:1:0", "ca:0:1", "ma:1:0", "del:0", "fview:1:0:1:2", "asrc:0:1",
+EXH_SMALL = ["rr:0:9:0:1", "rr:0:1:0:2", "rw:0:0:1:2", "pw:1:V:0:0:3", "rw:0:1:0:2", "src:0:O:0", "src:0:F:0", "src:0:V:0", "cc:1:0", "mc:1:0", "ca:0:1", "ma:1:0", "del:0", "fview:1:0:1:2", "asrc:0:1",
              "resize:0:9:4", "resize:1:1:4", "reset:0", "sset:0:v:5,6", "w:1:0:9", "w:0:1:9"]
 
 
@@ -406,6 +427,53 @@ def run_impl(ctx, exe, arg, cases, max_crashes=8):
 def asan_summary(err):
     keep = [l.strip() for l in err.splitlines() if re.search(r"ERROR: |runtime error|^\s*#[0-4] |freed by|previously allocated|located", l)]
     return keep[:14]
+
+
+KLETTER = {"ArrayView": "V", "OwnedArray": "O", "FixedArray": "F", "FixedArrayView": "W"}
+# (parameter kind, member) -> the history operation whose argument ALIASES the wrapper's own storage / the wrapper itself.
+# Derived per run from the signatures factgen.py extracts: every public by-reference / pointer parameter of every wrapper
+# member must either have an entry here (and the run must have executed it) or a stated reason why it cannot alias.
+ALIAS_OPS = {
+    ("elem_ref", "resize"): ("rr(self)", "w.resize(n, w[idx]): growth past / within the capacity, no change, shrinking below idx"),
+    ("elem_ptr", "reset"): ("rw(self)", "w.reset(w.data()+off, n) for every off, n; also through a view over w and from other wrappers (rw)"),
+    ("elem_ptr", "<ctor>"): ("pw", "T(w_j.data()+off, n): storage of another wrapper (the object under construction has none yet)"),
+    ("self_cref", "operator="): ("ca(self)", "w = w"),
+    ("self_rref", "operator="): ("ma(self)", "w = std::move(w)"),
+}
+ALIAS_NA = {
+    ("self_cref", "<ctor>"): "an object under construction cannot be its own argument (copy then destroy/mutate the original: cc, del, ...)",
+    ("self_rref", "<ctor>"): "an object under construction cannot be its own argument (move then destroy/mutate the source: mc, del, ...)",
+    "container_ref": "a std::vector / std::array argument cannot share storage with a wrapper: dataBuf and array are private, views own nothing",
+    "shared_ptr_ref": "the only shared_ptr<FixedArray> a view holds is private; the viewed FixedArray is re-assigned / destroyed under the view (asrc, ca, del)",
+    "other_ptr": "DataView owns nothing; overlapping and zero strides are generated",
+}
+
+
+def alias_coverage(ctx, sigs, alias_exec):
+    out = []
+    for sg in sigs:
+        for k, prm in enumerate(sg["params"]):
+            kd = prm["kind"]
+            if kd == "value":
+                continue
+            ent = {"member": "%s::%s" % (sg["class"], sg["member"]) + (" (implicit)" if sg.get("implicit") else ""),
+                   "parameter": "%d: %s" % (k, prm["type"])}
+            reg = ALIAS_OPS.get((kd, sg["member"]))
+            na = ALIAS_NA.get((kd, sg["member"])) or ALIAS_NA.get(kd)
+            if sg["class"] not in KLETTER and kd.startswith("self_"):
+                na = "base-class / plain-struct copy operation: exercised through the wrappers' own copy operations (ca, cc on every kind)"
+            if reg and sg["class"] in KLETTER:
+                n = alias_exec.get((reg[0], KLETTER[sg["class"]]), 0)
+                ent.update({"aliasing_operation": reg[0], "what": reg[1], "executed": n})
+                if n == 0:
+                    ctx.broken.append("aliasing variant %s of %s parameter %s was not executed in this run" % (reg[0], ent["member"], ent["parameter"]))
+            elif na:
+                ent["not_applicable"] = na
+            else:
+                ent["UNCOVERED"] = "no aliasing variant is known for this by-reference parameter"
+                ctx.broken.append("by-reference parameter without an aliasing variant: %s parameter %s" % (ent["member"], ent["parameter"]))
+            out.append(ent)
+    return out
 
 
 def regenerate_facts(ctx):
@@ -473,6 +541,7 @@ def run(ctx):
                           % (len(bad), cases[bad[0]], mlines[bad[0]][-300:], olines[bad[0]][-300:]))
 
     hist, kinds, stale, steps_total = {}, {}, 0, 0
+    alias_exec = {}
     for c, ml in zip(cases, mlines):
         if c[0] != "H":
             continue
@@ -482,9 +551,15 @@ def run(ctx):
         interesting = False
         for tok, s in zip(ops, st):
             tf = tok.split(":")
-            key = tf[0] + ("(self)" if tf[0] == "rw" and tf[1] == tf[2] else "") + ("" if s.startswith("ok|") else "(skip)")
+            selfal = (tf[0] == "rw" and tf[1] == tf[2]) or (tf[0] == "rr" and tf[1] == tf[3]) or (tf[0] in ("ca", "ma") and tf[1] == tf[2])
+            key = tf[0] + ("(self)" if selfal else "") + ("" if s.startswith("ok|") else "(skip)")
+            if s.startswith("ok|") and tf[0] in ("rw", "rr", "pw", "ca", "ma"):
+                # class of the wrapper the member was called on = kind letter of slot i after the step
+                kl = s.split("|")[1].split(" ")[int(tf[1])][:1]
+                akey = (tf[0] + ("(self)" if selfal else ""), kl)
+                alias_exec[akey] = alias_exec.get(akey, 0) + 1
             hist[key] = hist.get(key, 0) + 1
-            if s.startswith("ok|") and tok.split(":")[0] in ("cc", "mc", "ca", "ma", "resize", "fview", "del", "asrc", "rptr", "reset", "pw", "rw"):
+            if s.startswith("ok|") and tok.split(":")[0] in ("cc", "mc", "ca", "ma", "resize", "fview", "del", "asrc", "rptr", "reset", "pw", "rw", "rr"):
                 interesting = True
         for m in re.finditer(r"([VOFW])(\d+)[zp]\[", st[-1]):
             kinds[m.group(1)] = kinds.get(m.group(1), 0) + 1
@@ -494,6 +569,7 @@ def run(ctx):
     for c in dcases:
         ctx.nontriv(c)
     ctx.cov["op_histogram"] = hist
+    ctx.cov["aliasing_variants_per_member_parameter"] = alias_coverage(ctx, facts.get("signatures") or [], alias_exec)
     ctx.cov["wrapper_kinds_in_final_states"] = kinds
     ctx.cov["stale_view_observations"] = stale
     ctx.cov["history_steps"] = steps_total
@@ -505,8 +581,8 @@ def run(ctx):
         sh[key] = sh.get(key, 0) + 1
     ctx.cov["dataview_layouts"] = sh
     ctx.rule = ("histories (length<=30, random, biased to operations whose precondition holds, 12%% wild) over 4 wrapper slots and 3 source "
-                "containers (std::vector and std::array<T,0..6>) plus all histories up to length %d over a 28-op alphabet and up to length %d "
-                "over a 19-op alphabet after a fixed 2-source prefix; after every step size(), data()==nullptr, every element by iteration, "
+                "containers (std::vector and std::array<T,0..6>) plus all histories up to length %d over a 31-op alphabet and up to length %d "
+                "over a 21-op alphabet after a fixed 2-source prefix; after every step size(), data()==nullptr, every element by iteration, "
                 "operator[], at(i) for all i<size and at(size()), at(size()+1), at(SIZE_MAX), begin/end/cbegin/cend are compared; each run "
                 "for uint8_t, int and a 24-byte struct under ASan+UBSan; (pointer, size) arguments are taken from source containers, "
                 "nullptr, and from WRAPPERS' own storage (pw / rw: w_i.reset(w_j.data()+off, n) with j = i for every off, through a view "
@@ -587,7 +663,7 @@ def run(ctx):
     ctx.trusted += ["fact extractor props/C11/factgen.py over `clang++ -std=c++11 -fsyntax-only -Xclang -ast-dump=json "
                     "-Xclang -ast-dump-filter=rkcommon::utility` of a TU instantiating the six wrappers (classifies mem-initialisers and "
                     "statements into the micro-operations / terms of coq/C11/FactsModel.v; anything unrecognised becomes "
-                    "MUnknown / TUnknown and fails PropertiesFacts.facts_match); the reflective check runs on 96 configurations and a grid",
+                    "MUnknown / TUnknown and fails PropertiesFacts.facts_match); the reflective check runs on 105 configurations and a grid",
                     "correspondence harness harness/C11/harness.cpp (g++ -std=c++11 -O1, ASan+UBSan, libstdc++) + generators and the value-level "
                     "reference `Ref` in props/C11/check.py; the harness recognises legitimately dangling ArrayViews by (source, generation) "
                     "bookkeeping and does not read through them",
